@@ -297,6 +297,41 @@ func (rn *run) checkFile(cfg config) {
 	}
 	longMember := mkLongOnce(mkLong("lm", arraySizes[(idx+1)%7], idx+3))
 
+	// an operation sequence: objects Put while a stream with strings in its dictionary is open (they are deferred);
+	// the amounts written around the Put vary across the Writer's 1024-byte start buffer
+	{
+		sm, qm, tm := mk("seqS"), mk("seqQ"), mk("seqT")
+		before := []int{0, 1, 100, 1000, 1023, 1024, 1025, 1500, 3000}[idx%9]
+		after := []int{0, 1, 30, 1024, 2000}[idx%5]
+		sbody := randBytes(e, before+after)
+		tbody := randBytes(e, []int{0, 5, 16, 1100}[idx%4])
+		refS, refQ, refT := w.Alloc(), w.Alloc(), w.Alloc()
+		mkS := func() pdf.Object { return pdf.Dict{"SD": fresh(sm), "SA": pdf.Array{fresh(sm), pdf.Integer(2)}} }
+		mkQ := func() pdf.Object { return pdf.Dict{"Q": fresh(qm), "QA": pdf.Array{fresh(qm)}} }
+		mkT := func() pdf.Object { return pdf.Dict{"TD": fresh(tm)} }
+		ws, err := w.OpenStream(refS, mkS().(pdf.Dict))
+		if err != nil {
+			e.Fail("writer-error", err.Error(), info)
+		} else {
+			ws.Write(sbody[:before])
+			if err := w.Put(refQ, mkQ()); err != nil {
+				e.Fail("writer-error", err.Error(), info)
+			}
+			objs = append(objs, &written{ref: refQ, obj: mkQ})
+			if idx%2 == 0 {
+				if err := w.Put(refT, pdf.NewStream(mkT().(pdf.Dict), append([]byte{}, tbody...))); err != nil {
+					e.Fail("writer-error", err.Error(), info)
+				}
+				objs = append(objs, &written{ref: refT, obj: mkT, body: tbody, stream: true})
+			}
+			ws.Write(sbody[before:])
+			if err := ws.Close(); err != nil {
+				e.Fail("writer-error", err.Error(), info)
+			}
+			objs = append(objs, &written{ref: refS, obj: mkS, body: sbody, stream: true})
+		}
+	}
+
 	// high object numbers and non-zero generations
 	nHigh := 2 + e.Rand.IntN(3)
 	used := map[uint32]bool{}
